@@ -8,7 +8,7 @@ use crate::{for_both, hx, Ctx, Tier};
 use blsful::*;
 use serde_json::json;
 
-pub const RULE: &str = "n in {2,3,8,64} (quick) / every n in 2..=64 (thorough) x {ProofOfPossession, Basic} x 2 groups x messages from the length classes: n fresh keys sign one message; accumulation (always through BOTH doors, MultiSignature::from_signatures and TryFrom<&[Signature]>, which must agree; an acceptance through either counts) must equal the reference group sum (bytes), also when one part occurs twice (front / middle / end) and MultiPublicKey::from_public_keys the key sum; (msig, mpk, msg) must verify (library and reference); omission of each signer, addition of one, replacement of each (every position for n<=16, 8 sampled above) and another message must fail, each also decided by the reference under the summed key; the accumulated key built from the signer list in another order must still verify. Accumulation refusal: all 3^n scheme assignments for n in {2,3}, MessageAugmentation at every position for n in {4,8}, sizes 0 and 1. History clusters (2 quick / 8 thorough per group): for three signers the multi-signature of each scheme against the exact signer set (two orders), a missing / added / replaced signer, another message and each other label, asked in ordered pairs (a,b) as a,b,b,a with the reference's answers. Distinct by (suite, scheme, variant, mpk, msig, msg); non-trivial = pairing equation decides (points decode, none is the identity).";
+pub const RULE: &str = "n in {2,3,8,64} (quick) / every n in 2..=64 (thorough) x {ProofOfPossession, Basic} x 2 groups x messages from the length classes: n fresh keys sign one message; accumulation (always through BOTH doors, MultiSignature::from_signatures and TryFrom<&[Signature]>, which must agree; an acceptance through either counts) must equal the reference group sum (bytes), also when one part occurs twice (front / middle / end) and MultiPublicKey::from_public_keys the key sum; (msig, mpk, msg) must verify (library and reference); omission of each signer, addition of one, replacement of each (every position for n<=16, 8 sampled above) and another message must fail, each also decided by the reference under the summed key; the accumulated key built from the signer list in another order must still verify. Accumulation refusal: all 3^n scheme assignments for n in {2,3}, identity-valued parts of a refused scheme at every position of a 3-part list, MessageAugmentation at every position for n in {4,8}, sizes 0 and 1. History clusters (2 quick / 8 thorough per group): for three signers the multi-signature of each scheme against the exact signer set (two orders), a missing / added / replaced signer, another message and each other label, asked in ordered pairs (a,b) as a,b,b,a with the reference's answers. Distinct by (suite, scheme, variant, mpk, msig, msg); non-trivial = pairing equation decides (points decode, none is the identity).";
 
 pub fn run(ctx: &mut Ctx) {
     for_both!(run_suite, ctx);
@@ -230,6 +230,22 @@ fn refusal<C: Suite>(ctx: &mut Ctx, g: u64) {
                 let Some(r) = ctx.guard("MultiSignature::from_signatures", || json!({"n":cnt,"aug_at":pos}), || multi_from::<C>(&sigs).is_ok()) else { continue };
                 ctx.expect(!r, &format!("C07/aug-accepted/{n}"), || json!({"what":"accumulation accepted a message-augmentation signature","n":cnt,"aug_at":pos,"others":other.name()}));
                 ctx.hit(&format!("{n}/refusal/aug-at-position"), &[&[cnt as u8, pos as u8, other.wire()]]);
+            }
+        }
+    }
+    // parts whose VALUE is the identity point (they add nothing to the sum) but whose scheme the
+    // accumulation must still refuse: another scheme than the first part's, or message
+    // augmentation throughout - at every position of a 3-part list
+    for first in [Scheme::Pop, Scheme::Basic, Scheme::Aug] {
+        for odd in SCHEMES {
+            if odd == first && first != Scheme::Aug {
+                continue;
+            }
+            for pos in 0..3usize {
+                let sigs: Vec<Signature<C>> = (0..3).map(|i| if i == pos { wrap_sig::<C>(odd, sig_id::<C>()) } else { mk(first) }).collect();
+                let Some(r) = ctx.guard("MultiSignature::from_signatures", || json!({"first":first.name(),"identity_part":odd.name(),"at":pos}), || multi_from::<C>(&sigs).is_ok()) else { continue };
+                ctx.expect(!r, &format!("C07/bad-assignment-accepted/{n}"), || json!({"what":"accumulation accepted an identity-valued part of a scheme it must refuse","others":first.name(),"identity_part_scheme":odd.name(),"position":pos}));
+                ctx.hit(&format!("{n}/refusal/scheme-assignments"), &[b"identity-part", &[first.wire(), odd.wire(), pos as u8]]);
             }
         }
     }
